@@ -110,7 +110,11 @@ class BgModel:
         self.t.start()
 
     def _run(self, workers, timeout, cfg_text):
-        self.r = run_tlc(self.ck, self.module, self.cfg, cfg_text=cfg_text, workers=workers, timeout=timeout, fast=False)
+        for attempt in range(2):
+            self.r = run_tlc(self.ck, self.module, self.cfg, cfg_text=cfg_text, workers=workers, timeout=timeout, fast=False)
+            # a JVM that died without exploring anything (killed on the shared machine) is retried once
+            if not (self.r.kind == "error" and self.r.distinct == 0 and "Error:" not in self.r.out):
+                break
 
     def join(self):
         self.t.join()
